@@ -4,6 +4,8 @@
 import OptreeModel.Model.Ops
 import OptreeModel.Lemmas.EncBroadcast
 import OptreeModel.Lemmas.PrefixOrder
+import OptreeModel.Lemmas.LubOrder
+import OptreeModel.Properties.C07
 
 namespace Optree
 
@@ -320,6 +322,117 @@ theorem C09_broadcast_idem (a : STree) (ha : a.wf = true) (hfa : a.fitsT = true)
   rw [C09_broadcast_refines a a ha hfa ha hfa nil ns ns (by simp [nsCompatible])]
   simp [bcastSpec, C09_lub_idem a ha hfa]
 
+/-! ### the merged shape is the *least* common suffix
+
+`Lemmas/LubOrder.lean`: normal forms of `prefixB` / `lub` at a pair of nodes, then mutual structural
+induction (children of dict kinds re-paired by key in both directions).  `RegsAgree`: each custom class has
+one registration record among the two shapes — `is_prefix` compares registrations by identity while
+`broadcast_to_common_suffix` compares the registered *class*, so two treespecs made before and after a
+re-registration merge but are not prefixes of the result; that is the code, and the hypothesis says so. -/
+
+/-- the merged shape is again well-formed with payloads fitting the kinds -/
+theorem C09_lub_closed (a b c : STree) (ha : a.wf = true) (hfa : a.fitsT = true) (hb : b.wf = true)
+    (hfb : b.fitsT = true) (h : a.lub b = some c) : c.wf = true ∧ c.fitsT = true :=
+  STree.lub_wf a ha hfa b hb hfb c h
+
+/-- **the second operand is a prefix of the merged shape** -/
+theorem C09_lub_extends_right (a b c : STree) (ha : a.wf = true) (hfa : a.fitsT = true) (hb : b.wf = true)
+    (hfb : b.fitsT = true) (hreg : RegsAgree a.regs b.regs) (h : a.lub b = some c) : b.prefixB c = true :=
+  STree.lub_extends_right a ha hfa b hb hfb hreg c h
+
+/-- **leastness**: whenever both operands are prefixes of some shape `d`, the merge succeeds and the
+merged shape is a prefix of `d` -/
+theorem C09_lub_least (a b d : STree) (ha : a.wf = true) (hfa : a.fitsT = true) (hb : b.wf = true)
+    (hfb : b.fitsT = true) (hd : d.wf = true) (h1 : a.prefixB d = true) (h2 : b.prefixB d = true) :
+    ∃ c, a.lub b = some c ∧ c.prefixB d = true :=
+  STree.lub_least a ha hfa b hb hfb d hd h1 h2
+
+/-- **`ValueError` exactly when the two shapes have no common suffix** -/
+theorem C09_conflict_iff (a b : STree) (ha : a.wf = true) (hfa : a.fitsT = true) (hb : b.wf = true)
+    (hfb : b.fitsT = true) (hreg : RegsAgree a.regs b.regs) :
+    a.lub b = Option.none ↔ ¬ ∃ d : STree, d.wf = true ∧ a.prefixB d = true ∧ b.prefixB d = true := by
+  constructor
+  · rintro h ⟨d, hd, h1, h2⟩
+    obtain ⟨c, hc, _⟩ := C09_lub_least a b d ha hfa hb hfb hd h1 h2
+    simp [h] at hc
+  · intro h
+    cases hl : a.lub b with
+    | none => rfl
+    | some c =>
+      exact absurd ⟨c, (C09_lub_closed a b c ha hfa hb hfb hl).1, C09_lub_extends_left a ha b hb c hl,
+        C09_lub_extends_right a b c ha hfa hb hfb hreg hl⟩ h
+
+/-- engine level: `a.broadcast_to_common_suffix(b)` raises `ValueError` iff no treespec has both as prefixes -/
+theorem C09_broadcast_error_iff (a b : STree) (ha : a.wf = true) (hfa : a.fitsT = true) (hb : b.wf = true)
+    (hfb : b.fitsT = true) (hreg : RegsAgree a.regs b.regs) (nil : Bool) (ns : String) :
+    broadcast (a.spec nil ns) (b.spec nil ns) = .error .value ↔
+      ¬ ∃ d : STree, d.wf = true ∧ a.prefixB d = true ∧ b.prefixB d = true := by
+  rw [C09_broadcast_refines a b ha hfa hb hfb nil ns ns (by simp [nsCompatible]),
+    ← C09_conflict_iff a b ha hfa hb hfb hreg]
+  unfold bcastSpec
+  cases a.lub b <;> simp
+
+/-- engine level: both operands are `<=` the result, and the result is `<=` every common suffix -/
+theorem C09_broadcast_is_least (a b : STree) (ha : a.wf = true) (hfa : a.fitsT = true) (hb : b.wf = true)
+    (hfb : b.fitsT = true) (hreg : RegsAgree a.regs b.regs) (nil : Bool) (ns : String) (r : Spec)
+    (h : broadcast (a.spec nil ns) (b.spec nil ns) = .ok r) :
+    isPrefix (a.spec nil ns) r false = .ok true ∧ isPrefix (b.spec nil ns) r false = .ok true ∧
+      ∀ d : STree, d.wf = true → isPrefix (a.spec nil ns) (d.spec nil ns) false = .ok true →
+        isPrefix (b.spec nil ns) (d.spec nil ns) false = .ok true →
+        isPrefix r (d.spec nil ns) false = .ok true := by
+  rw [C09_broadcast_refines a b ha hfa hb hfb nil ns ns (by simp [nsCompatible])] at h
+  unfold bcastSpec at h
+  cases hl : a.lub b with
+  | none => simp [hl] at h
+  | some c =>
+    simp only [hl, Except.ok.injEq] at h
+    have hns : mergeNs ns ns = ns := by unfold mergeNs; split <;> simp_all
+    rw [hns] at h
+    subst h
+    have hc := C09_lub_closed a b c ha hfa hb hfb hl
+    refine ⟨?_, ?_, ?_⟩
+    · rw [C07_is_prefix_iff a c ha hc.1, C09_lub_extends_left a ha b hb c hl]
+    · rw [C07_is_prefix_iff b c hb hc.1, C09_lub_extends_right a b c ha hfa hb hfb hreg hl]
+    · intro d hd h1 h2
+      rw [C07_is_prefix_iff a d ha hd] at h1
+      rw [C07_is_prefix_iff b d hb hd] at h2
+      simp only [Except.ok.injEq] at h1 h2
+      obtain ⟨c', hc', hp⟩ := C09_lub_least a b d ha hfa hb hfb hd h1 h2
+      rw [hl] at hc'
+      simp only [Option.some.injEq] at hc'
+      subst hc'
+      rw [C07_is_prefix_iff c d hc.1 hd, hp]
+
+/-- **independent of argument order up to dict kind / key order**: the two results are prefixes of each
+other (same nodes; only the node records taken from the other operand — dict kind, key order, custom
+entries — may differ) -/
+theorem C09_lub_comm (a b c : STree) (ha : a.wf = true) (hfa : a.fitsT = true) (hb : b.wf = true)
+    (hfb : b.fitsT = true) (hreg : RegsAgree a.regs b.regs) (h : a.lub b = some c) :
+    ∃ c', b.lub a = some c' ∧ c.prefixB c' = true ∧ c'.prefixB c = true := by
+  have hc := C09_lub_closed a b c ha hfa hb hfb h
+  have hac := C09_lub_extends_left a ha b hb c h
+  have hbc := C09_lub_extends_right a b c ha hfa hb hfb hreg h
+  obtain ⟨c', hc', hp'⟩ := C09_lub_least b a c hb hfb ha hfa hc.1 hbc hac
+  have hcw := C09_lub_closed b a c' hb hfb ha hfa hc'
+  have hbc' := C09_lub_extends_left b hb a ha c' hc'
+  have hreg' : RegsAgree b.regs a.regs := fun r hr r' hr' e1 e2 => (hreg r' hr' r hr e1.symm e2.symm).symm
+  have hac' := C09_lub_extends_right b a c' hb hfb ha hfa hreg' hc'
+  obtain ⟨c'', hc'', hp''⟩ := C09_lub_least a b c' ha hfa hb hfb hcw.1 hac' hbc'
+  rw [h] at hc''
+  simp only [Option.some.injEq] at hc''
+  subst hc''
+  exact ⟨c', hc', hp'', hp'⟩
+
+/-- **when one operand is already a prefix of the other, the result is the other operand** (up to the
+node records the result takes from the first operand: dict kind, key order, custom entries) -/
+theorem C09_lub_of_prefix (a b : STree) (ha : a.wf = true) (hfa : a.fitsT = true) (hb : b.wf = true)
+    (hfb : b.fitsT = true) (hreg : RegsAgree a.regs b.regs) (h : a.prefixB b = true) :
+    ∃ c, a.lub b = some c ∧ c.prefixB b = true ∧ b.prefixB c = true ∧ c.size = b.size := by
+  obtain ⟨c, hc, hp⟩ := C09_lub_least a b b ha hfa hb hfb hb h (STree.prefixB_refl b hb)
+  have hcw := C09_lub_closed a b c ha hfa hb hfb hc
+  have hbc := C09_lub_extends_right a b c ha hfa hb hfb hreg hc
+  exact ⟨c, hc, hp, hbc, STree.prefixB_antisymm_size c b hcw.1 hb hp hbc⟩
+
 /-- non-vacuity: `{"a": *, "b": (*, *)}` and `OrderedDict(b=*, a=[*])` merge to `{"a": [*], "b": (*, *)}` -/
 def C09_demoA : STree :=
   .node ⟨.dict, .keys [.str "a", .str "b"], Option.none, Option.none, some [.str "a", .str "b"]⟩
@@ -330,5 +443,17 @@ def C09_demoB : STree :=
 
 example : C09_demoA.wf = true ∧ C09_demoA.fitsT = true ∧ C09_demoB.wf = true ∧ C09_demoB.fitsT = true ∧
     ((C09_demoA.lub C09_demoB).map STree.leaves) = some 3 := by decide
+
+/-- the hypotheses of the order theorems are met by the demo pair (no custom nodes: `RegsAgree` holds
+trivially), and the pair has a common suffix -/
+example : RegsAgree C09_demoA.regs C09_demoB.regs := by
+  intro r hr; simp [C09_demoA, STree.regs, STree.regsL] at hr
+
+example : ∃ c, C09_demoA.lub C09_demoB = some c ∧ C09_demoB.prefixB c = true ∧ c.size = 6 := by
+  refine ⟨_, rfl, ?_, ?_⟩ <;> decide
+
+/-- a genuinely conflicting pair (`(*, *)` against `[*, *]`) has no common suffix -/
+example : (STree.node ⟨.tuple, .none, Option.none, Option.none, Option.none⟩ [.leaf, .leaf]).lub
+    (.node ⟨.list, .none, Option.none, Option.none, Option.none⟩ [.leaf, .leaf]) = Option.none := by decide
 
 end Optree
